@@ -10,7 +10,8 @@ UNITS = {
     'runtime': {'plan': RUNTIME_PLAN, 'contracts': 'runtime.contracts', 'speclib': 'speclib.rs',
                 'theorems': 'theorems.rs', 'out': 'runtime_verus.rs'},
     'codegen': {'plan': CODEGEN_PLAN, 'contracts': 'codegen.contracts', 'speclib': 'codegen_speclib.rs',
-                'theorems': 'codegen_theorems.rs', 'out': 'codegen_verus.rs'},
+                'theorems': 'codegen_theorems.rs', 'out': 'codegen_verus.rs',
+                'optional': {'flags': 'codegen_flags_speclib.rs'}},
 }
 
 def generate(repo, outdir, unit='runtime', contracts_dir=None, canary=None, force_assume=None):
@@ -32,6 +33,10 @@ def generate(repo, outdir, unit='runtime', contracts_dir=None, canary=None, forc
     speclib_hi = out.lineno
     extract(repo, u['plan'], contracts, out)
     thm_lo = out.lineno
+    for grp, fname in u.get('optional', {}).items():
+        if grp not in out.failed_groups:
+            # vocabulary and theorems of an optional extraction group: only when its items were all found
+            out.emit(open(os.path.join(contracts_dir, fname)).read().rstrip('\n'))
     out.emit(open(os.path.join(contracts_dir, u['theorems'])).read().rstrip('\n'))
     out.emit('')
     out.emit('} // verus!')
